@@ -13,14 +13,16 @@ import (
 
 // Profile selects a sub-language.
 type Profile struct {
-	Common     bool // the subset both backends define (C04): boolean operands for and/or/not, no collection printing, same-kind equality …
-	NoFloats   bool
-	MaxDepth   int  // expression depth
-	Unicode    bool // strings beyond ASCII
-	HTMLChars  bool // strings with & < > " '
-	BigInts    bool // 32-bit and 53-bit integer literals
-	Directives bool
-	Messages   bool
+	Common      bool // the subset both backends define (C04): boolean operands for and/or/not, no collection printing, same-kind equality …
+	NoFloats    bool
+	MaxDepth    int  // expression depth
+	Unicode     bool // strings beyond ASCII
+	HTMLChars   bool // strings with & < > " '
+	BigInts     bool // 32-bit and 53-bit integer literals
+	Directives  bool
+	Messages    bool
+	Custom      bool // functions and print directives registered by the application (verifFn, verifBang)
+	CustomAlias bool // the application also registered its string function under a second name (aTag)
 }
 
 // Ty is the generator's static type of an expression or variable.
@@ -615,6 +617,17 @@ func (g *G) expr1(sc *Scope, want *Ty, depth int) *Expr {
 		}
 		return g.leaf(sc, want)
 	case Int:
+		if g.P.Custom && g.Chance(12) {
+			// the application's own function: the number of its arguments (none or one)
+			if g.Chance(40) {
+				return call("verifFn")
+			}
+			// (the function takes any value, also an undefined one: an optional param that may be absent)
+			if opts := g.optPaths(sc); len(opts) > 0 && g.Chance(50) {
+				return call("verifFn", g.useVar(opts[g.Intn(len(opts))]))
+			}
+			return call("verifFn", g.Expr(sc, g.ScalarType(), d))
+		}
 		switch g.Weighted(30, 8, 8, 8, 8, 6, 6, 4, 4) {
 		case 0:
 			return bin(g.Pick("+", "-", "*"), g.Expr(sc, TInt, d), g.Expr(sc, TInt, d))
@@ -673,6 +686,13 @@ func (g *G) expr1(sc *Scope, want *Ty, depth int) *Expr {
 			return call("round", g.Expr(sc, TFloat, d), &Expr{Op: "int", I: int64(1 + g.Intn(3))})
 		}
 	case String:
+		if g.P.Custom && g.Chance(12) {
+			// the application's own string function: its argument between angle brackets
+			if g.P.CustomAlias && g.Chance(50) {
+				return call("aTag", g.Expr(sc, TString, d))
+			}
+			return call("verifTag", g.Expr(sc, TString, d))
+		}
 		switch g.Weighted(40, 30) {
 		case 0:
 			a := g.Expr(sc, TString, d)
